@@ -14,8 +14,10 @@ import (
 
 	api "k8s.io/api/core/v1"
 	networking "k8s.io/api/networking/v1"
+	metav1 "k8s.io/apimachinery/pkg/apis/meta/v1"
 	"k8s.io/apimachinery/pkg/util/intstr"
 	"sigs.k8s.io/controller-runtime/pkg/client"
+	gatewayv1 "sigs.k8s.io/gateway-api/apis/v1"
 
 	"verif/harness/lib/pipeline"
 	"verif/harness/lib/world"
@@ -41,6 +43,19 @@ type op struct {
 	Ann     map[string]string `json:"ann,omitempty"`
 	CN      string            `json:"cn,omitempty"`
 	Variant int               `json:"variant,omitempty"`
+	// Svc: the service of the rules (default svc1; ssl-passthrough ingresses use svcp so that
+	// the tcp mode of their backend stays theirs)
+	Svc string `json:"svc,omitempty"`
+	// Kind Gateway: two HTTPS listeners, each with one HTTPRoute <name>-<listener>
+	Listeners []gwL `json:"listeners,omitempty"`
+}
+
+// gwL is one HTTPS listener of a Gateway with the HTTPRoute attached to it.
+type gwL struct {
+	Name   string   `json:"name"`
+	Host   string   `json:"host,omitempty"` // listener hostname ("" = the hostnames of the route)
+	Certs  []string `json:"certs"`          // certificateRefs: "name" or "namespace/name"
+	Routes []string `json:"routes"`         // hostnames of the route
 }
 
 type input struct {
@@ -51,6 +66,11 @@ type input struct {
 	DefaultSecret string `json:"default_secret,omitempty"`
 	// CrossNS: --allow-cross-namespace (oracle only): "ns/name" references are allowed.
 	CrossNS bool `json:"cross_ns,omitempty"`
+	// Gateway: the Gateway API (v1) is watched; a GatewayClass of this controller exists.
+	Gateway bool `json:"gateway,omitempty"`
+	// Probe: the input uses names Kubernetes would reject (namespaces with '_'): what the
+	// oracle finds is recorded as an observation, not as a failure.
+	Probe bool `json:"probe,omitempty"`
 }
 
 func (o op) key() string { return o.Kind + "|" + o.NS + "|" + o.Name }
@@ -61,6 +81,16 @@ func (o op) String() string {
 			return fmt.Sprintf("delete Secret %s/%s", o.NS, o.Name)
 		}
 		return fmt.Sprintf("%s Secret %s/%s cn=%s variant=%d", o.Op, o.NS, o.Name, o.CN, o.Variant)
+	}
+	if o.Kind == "Gateway" {
+		if o.Op == "delete" {
+			return fmt.Sprintf("delete Gateway %s/%s", o.NS, o.Name)
+		}
+		var ls []string
+		for _, l := range o.Listeners {
+			ls = append(ls, fmt.Sprintf("%s{host=%q certs=%q routes=%q}", l.Name, l.Host, l.Certs, l.Routes))
+		}
+		return fmt.Sprintf("%s Gateway %s/%s t=%d %s", o.Op, o.NS, o.Name, o.Stamp, strings.Join(ls, " "))
 	}
 	if o.Op == "delete" {
 		return fmt.Sprintf("delete Ingress %s/%s", o.NS, o.Name)
@@ -98,14 +128,32 @@ var (
 	ingNames    = []string{"ing1", "ing2", "ing3", "ing4", "ing5"}
 )
 
-// toObject builds the Kubernetes object of an op.
-func toObject(o op) client.Object {
+// toObject builds the Kubernetes object of an op (the first one for a Gateway).
+func toObject(o op) client.Object { return toObjects(o)[0] }
+
+// caSecret is a secret with ca.crt only (auth-tls-secret); one content per namespace.
+func caSecret(ns string) *api.Secret {
+	crt, _ := world.Cert("ca-of-" + ns)
+	s := &api.Secret{}
+	s.Namespace, s.Name = ns, "ca-1"
+	s.Data = map[string][]byte{"ca.crt": crt}
+	return s
+}
+
+func toObjects(o op) []client.Object {
 	if o.Kind == "Secret" {
-		return world.TLSSecret(o.NS, o.Name, o.CN, o.Variant)
+		return []client.Object{world.TLSSecret(o.NS, o.Name, o.CN, o.Variant)}
+	}
+	if o.Kind == "Gateway" {
+		return gatewayObjects(o)
+	}
+	svc := o.Svc
+	if svc == "" {
+		svc = "svc1"
 	}
 	var rules []world.IngRule
 	for _, h := range o.Rules {
-		rules = append(rules, world.IngRule{Host: h, Paths: []world.IngPath{{Path: "/", Type: "Prefix", Service: "svc1", PortNum: 80}}})
+		rules = append(rules, world.IngRule{Host: h, Paths: []world.IngPath{{Path: "/", Type: "Prefix", Service: svc, PortNum: 80}}})
 	}
 	ing := world.Ingress(o.NS, o.Name, o.Stamp, rules...)
 	for _, b := range o.TLS {
@@ -117,7 +165,43 @@ func toObject(o op) client.Object {
 			ing.Annotations[world.AnnPrefix+k] = v
 		}
 	}
-	return ing
+	return []client.Object{ing}
+}
+
+func gatewayObjects(o op) []client.Object {
+	same := gatewayv1.NamespacesFromSame
+	gw := &gatewayv1.Gateway{ObjectMeta: metav1.ObjectMeta{Namespace: o.NS, Name: o.Name, CreationTimestamp: world.Stamp(o.Stamp)},
+		Spec: gatewayv1.GatewaySpec{GatewayClassName: "gwc"}}
+	objs := []client.Object{gw}
+	for i, l := range o.Listeners {
+		li := gatewayv1.Listener{Name: gatewayv1.SectionName(l.Name), Port: 443, Protocol: gatewayv1.HTTPSProtocolType,
+			AllowedRoutes: &gatewayv1.AllowedRoutes{Namespaces: &gatewayv1.RouteNamespaces{From: &same}},
+			TLS:           &gatewayv1.GatewayTLSConfig{}}
+		if l.Host != "" {
+			h := gatewayv1.Hostname(l.Host)
+			li.Hostname = &h
+		}
+		for _, c := range l.Certs {
+			ref := gatewayv1.SecretObjectReference{Name: gatewayv1.ObjectName(c)}
+			if j := strings.Index(c, "/"); j >= 0 {
+				n := gatewayv1.Namespace(c[:j])
+				ref.Namespace, ref.Name = &n, gatewayv1.ObjectName(c[j+1:])
+			}
+			li.TLS.CertificateRefs = append(li.TLS.CertificateRefs, ref)
+		}
+		gw.Spec.Listeners = append(gw.Spec.Listeners, li)
+		section := gatewayv1.SectionName(l.Name)
+		port := gatewayv1.PortNumber(80)
+		rt := &gatewayv1.HTTPRoute{ObjectMeta: metav1.ObjectMeta{Namespace: o.NS, Name: o.Name + "-" + l.Name, CreationTimestamp: world.Stamp(o.Stamp + i)}}
+		rt.Spec.ParentRefs = []gatewayv1.ParentReference{{Name: gatewayv1.ObjectName(o.Name), SectionName: &section}}
+		for _, h := range l.Routes {
+			rt.Spec.Hostnames = append(rt.Spec.Hostnames, gatewayv1.Hostname(h))
+		}
+		rt.Spec.Rules = []gatewayv1.HTTPRouteRule{{BackendRefs: []gatewayv1.HTTPBackendRef{{BackendRef: gatewayv1.BackendRef{
+			BackendObjectReference: gatewayv1.BackendObjectReference{Name: "svc1", Port: &port}}}}}}
+		objs = append(objs, rt)
+	}
+	return objs
 }
 
 // baseObjects are the services every history starts with (svc1 in every namespace).
@@ -130,24 +214,56 @@ func baseObjects() []client.Object {
 	return out
 }
 
-func toBatch(b []op, first bool) []pipeline.Change {
+// extraObjects: what the wider inputs need on top (outside the Coq model of the
+// converter): the service of ssl-passthrough ingresses, the CA secrets of auth-tls,
+// the GatewayClass.
+func extraObjects(in input) []client.Object {
+	var out []client.Object
+	ann := in.Gateway
+	for _, b := range in.History {
+		for _, o := range b {
+			if len(o.Ann) > 0 {
+				ann = true
+			}
+		}
+	}
+	if ann {
+		for i, ns := range namespaces {
+			out = append(out, world.Service(ns, "svcp", world.SvcPort{Name: "https", Port: 80, TargetPort: intstr.FromInt(8443)}))
+			out = append(out, world.Endpoints(ns, "svcp", world.EpPort{Name: "https", Port: 8443, Ready: []string{fmt.Sprintf("10.0.%d.2", i+1)}}))
+			out = append(out, caSecret(ns))
+		}
+	}
+	if in.Gateway {
+		out = append(out, &gatewayv1.GatewayClass{ObjectMeta: metav1.ObjectMeta{Name: "gwc"},
+			Spec: gatewayv1.GatewayClassSpec{ControllerName: "haproxy-ingress.github.io/controller"}})
+	}
+	return out
+}
+
+func toBatch(b []op, first bool, extra ...client.Object) []pipeline.Change {
 	var out []pipeline.Change
 	if first {
 		for _, o := range baseObjects() {
 			out = append(out, pipeline.Change{Op: pipeline.Create, Obj: o})
 		}
+		for _, o := range extra {
+			out = append(out, pipeline.Change{Op: pipeline.Create, Obj: o})
+		}
 	}
 	for _, o := range b {
-		c := pipeline.Change{Obj: toObject(o)}
-		switch o.Op {
-		case "update":
-			c.Op = pipeline.Update
-		case "delete":
-			c.Op = pipeline.Delete
-		default:
-			c.Op = pipeline.Create
+		for _, obj := range toObjects(o) {
+			c := pipeline.Change{Obj: obj}
+			switch o.Op {
+			case "update":
+				c.Op = pipeline.Update
+			case "delete":
+				c.Op = pipeline.Delete
+			default:
+				c.Op = pipeline.Create
+			}
+			out = append(out, c)
 		}
-		out = append(out, c)
 	}
 	return out
 }
@@ -204,7 +320,7 @@ func normalise(h [][]op) [][]op {
 			case o.Op == "delete":
 			case ok:
 				o.Op = "update"
-				if o.Kind == "Ingress" {
+				if o.Kind == "Ingress" || o.Kind == "Gateway" {
 					o.Stamp = old.Stamp
 				}
 			default:
@@ -221,8 +337,61 @@ func normalise(h [][]op) [][]op {
 }
 
 type genCfg struct {
-	foreign bool // cross-namespace secret references "ns/name"
-	ann     bool // annotations (ssl-always-add-https, auth-tls-secret): oracle only
+	foreign bool   // cross-namespace secret references "ns/name"
+	ann     bool   // annotations (ssl-always-add-https, ssl-passthrough, auth-tls-secret)
+	gateway bool   // Gateway API listeners with certificateRefs
+	defsec  string // the --default-ssl-certificate secret: changed more often
+}
+
+var (
+	gwHosts   = []string{"g1.gw.example", "g2.gw.example", "g3.gw.example"}
+	gwSecrets = []string{"tls-g1", "tls-g2", "tls-1", "tls-absent"}
+	gwCNs     = []string{"g1.gw.example", "g2.gw.example", "*.gw.example", "cn1", "cn2"}
+)
+
+func hasWildcard(o op) bool {
+	for _, h := range o.Rules {
+		if strings.HasPrefix(h, "*") {
+			return true
+		}
+	}
+	for _, b := range o.TLS {
+		for _, h := range b.Hosts {
+			if strings.HasPrefix(h, "*") {
+				return true
+			}
+		}
+	}
+	return false
+}
+
+// genGateway: a gateway with two HTTPS listeners; the hosts of the listeners of one cluster
+// are mostly distinct (taken round robin from gwHosts starting at a random place).
+func genGateway(rng *rand.Rand, ns, name string, stamp int) op {
+	o := op{Op: "create", Kind: "Gateway", NS: ns, Name: name, Stamp: stamp}
+	start := rng.Intn(len(gwHosts))
+	for i := 0; i < 2; i++ {
+		l := gwL{Name: fmt.Sprintf("l%d", i+1)}
+		h := gwHosts[(start+i)%len(gwHosts)]
+		switch rng.Intn(3) {
+		case 0:
+			l.Host, l.Routes = h, []string{h}
+		case 1:
+			l.Routes = []string{h}
+		default:
+			l.Routes = []string{h, gwHosts[(start+2)%len(gwHosts)]}
+		}
+		for j, m := 0, 1+rng.Intn(2); j < m; j++ {
+			c := pickS(rng, gwSecrets)
+			if rng.Intn(10) == 0 {
+				other := namespaces[(indexOf(namespaces, ns)+1)%len(namespaces)]
+				c = other + "/" + pickS(rng, gwSecrets[:3])
+			}
+			l.Certs = append(l.Certs, c)
+		}
+		o.Listeners = append(o.Listeners, l)
+	}
+	return o
 }
 
 func pickS(rng *rand.Rand, xs []string) string { return xs[rng.Intn(len(xs))] }
@@ -278,8 +447,21 @@ func genIngress(rng *rand.Rand, cfg genCfg, ns, name string, stamp int) op {
 		}
 		o.TLS = append(o.TLS, b)
 	}
-	if cfg.ann && rng.Intn(4) == 0 {
-		o.Ann = map[string]string{"ssl-always-add-https": "true"}
+	if cfg.ann {
+		o.Ann = map[string]string{}
+		if rng.Intn(4) == 0 {
+			o.Ann["ssl-always-add-https"] = "true"
+		}
+		if rng.Intn(4) == 0 {
+			o.Ann["auth-tls-secret"] = "ca-1"
+		}
+		if rng.Intn(6) == 0 && !hasWildcard(o) && len(o.Rules) > 0 {
+			o.Ann["ssl-passthrough"] = "true"
+			o.Svc = "svcp"
+		}
+		if len(o.Ann) == 0 {
+			o.Ann = nil
+		}
 	}
 	return o
 }
@@ -295,6 +477,9 @@ func indexOf(xs []string, x string) int {
 
 func genSecret(rng *rand.Rand, ns, name string) op {
 	o := op{Op: "create", Kind: "Secret", NS: ns, Name: name, CN: pickS(rng, cnPool)}
+	if strings.HasPrefix(name, "tls-g") {
+		o.CN = pickS(rng, gwCNs)
+	}
 	switch {
 	case name == "tls-bad" && rng.Intn(4) > 0:
 		o.Variant = 1 + rng.Intn(2)
@@ -324,6 +509,19 @@ func genHistory(rng *rand.Rand, cfg genCfg, n int) [][]op {
 		stamp := 10 + rng.Intn(6)
 		first = append(first, genIngress(rng, cfg, ns, name, stamp))
 	}
+	if cfg.gateway {
+		for _, ns := range namespaces[:2] {
+			for _, sname := range gwSecrets[:2] {
+				if rng.Intn(5) > 0 {
+					first = append(first, genSecret(rng, ns, sname))
+				}
+			}
+		}
+		first = append(first, genGateway(rng, "ns1", "gw1", 10+rng.Intn(4)))
+		if rng.Intn(2) == 0 {
+			first = append(first, genGateway(rng, "ns2", "gw2", 10+rng.Intn(4)))
+		}
+	}
 	h := [][]op{first}
 	c := newCluster()
 	c.apply(first)
@@ -331,7 +529,46 @@ func genHistory(rng *rand.Rand, cfg genCfg, n int) [][]op {
 		var b []op
 		for j, m := 0, 1+rng.Intn(2); j < m; j++ {
 			var o op
-			switch k := rng.Intn(10); {
+			k := rng.Intn(10)
+			if cfg.gateway && rng.Intn(2) == 0 {
+				// gateway mode: half of the changes concern the gateways and their secrets
+				switch g := rng.Intn(6); {
+				case g < 3:
+					ns, name := pickS(rng, namespaces[:2]), pickS(rng, gwSecrets[:3])
+					o = genSecret(rng, ns, name)
+					if _, ok := c.objs[o.key()]; ok && rng.Intn(4) == 0 {
+						o = op{Op: "delete", Kind: "Secret", NS: ns, Name: name}
+					}
+				case g < 5:
+					if rng.Intn(2) == 0 {
+						o = genGateway(rng, "ns1", "gw1", 10+rng.Intn(4))
+					} else {
+						o = genGateway(rng, "ns2", "gw2", 10+rng.Intn(4))
+					}
+				default:
+					if gws := c.ofKind("Gateway"); len(gws) > 0 {
+						gw := gws[rng.Intn(len(gws))]
+						o = op{Op: "delete", Kind: "Gateway", NS: gw.NS, Name: gw.Name}
+					} else {
+						o = genGateway(rng, "ns1", "gw1", 10+rng.Intn(4))
+					}
+				}
+				b = append(b, o)
+				c.apply([]op{o})
+				continue
+			}
+			if cfg.defsec != "" && rng.Intn(4) == 0 {
+				// the default certificate itself is replaced / removed / broken
+				i := strings.Index(cfg.defsec, "/")
+				o = genSecret(rng, cfg.defsec[:i], cfg.defsec[i+1:])
+				if _, ok := c.objs[o.key()]; ok && rng.Intn(5) == 0 {
+					o = op{Op: "delete", Kind: "Secret", NS: o.NS, Name: o.Name}
+				}
+				b = append(b, o)
+				c.apply([]op{o})
+				continue
+			}
+			switch {
 			case k < 6: // secret add / replace / delete
 				ns, name := genNS(rng), pickS(rng, secretNames)
 				// prefer secrets that some ingress references
